@@ -49,7 +49,14 @@ impl Record {
         let reference_sequence_id = record.reference_sequence_id(header).transpose()?;
         let alignment_start = record.alignment_start().transpose()?;
 
-        let features = if let (Some(id), Some(start)) = (reference_sequence_id, alignment_start) {
+        // A record that is not flagged as unmapped is written as a mapped read, whose bases are in
+        // its features. Without a reference sequence or an alignment start, there is nothing to
+        // align the read to.
+        let is_aligned = reference_sequence_id.is_some() && alignment_start.is_some();
+
+        let features = if !bam_flags.is_unmapped() && !is_aligned {
+            Some(sequence_to_features(&sequence))
+        } else if let (Some(id), Some(start)) = (reference_sequence_id, alignment_start) {
             let (reference_sequence_name, _) =
                 header.reference_sequences().get_index(id).ok_or_else(|| {
                     io::Error::new(io::ErrorKind::InvalidInput, "invalid reference sequence ID")
@@ -325,6 +332,18 @@ fn cigar_to_features(
     }
 
     Ok(features)
+}
+
+// Stores the bases of a read that is not aligned to a reference sequence as a soft clip.
+fn sequence_to_features(sequence: &Sequence) -> Vec<Feature> {
+    if sequence.is_empty() {
+        Vec::new()
+    } else {
+        vec![Feature::SoftClip {
+            position: Position::MIN,
+            bases: sequence.as_ref().to_vec(),
+        }]
+    }
 }
 
 fn get_reference_base(
